@@ -37,7 +37,8 @@ type lcCfg struct {
 	Outputs     bool     `json:"outputs"` // HLS, HTTP-TS, FLV and TS recording enabled (C16)
 	Leak        int      `json:"leak"`
 	PushTargets []string `json:"pushTargets"` // relay push targets (one gated stub RTMP server each)
-	ParamLen    int      `json:"paramLen"`    // length of the URL parameters of RTMP publishers    // > 0: run that many publish/unpublish cycles and report resource counts
+	ParamLen    int      `json:"paramLen"`    // length of the URL parameters of RTMP publishers
+	WirePubs    []string `json:"wirePubs"`    // RTMP publishers on real loopback connections served by the server's own routine
 }
 
 type lcStep struct {
@@ -47,6 +48,7 @@ type lcStep struct {
 	// verdict is TLC's, on what was observed)
 	ExpAttempts int `json:"expAttempts"`
 	ExpNotif    int `json:"expNotif"`
+	ExpHook     int `json:"expHook"`
 }
 
 type lcScenario struct {
@@ -101,6 +103,11 @@ func (r *lcHookRec) add(ev, id string) {
 	r.evs = append(r.evs, M{"ev": ev, "id": id})
 	r.mu.Unlock()
 }
+func (r *lcHookRec) count() int {
+	r.mu.Lock()
+	defer r.mu.Unlock()
+	return len(r.evs)
+}
 func (h *lcHook) OnMsg(msg base.RtmpMsg) { h.rec.add("hook_msg", "?"+h.key) }
 func (h *lcHook) OnStop()                { h.rec.add("hook_stop", "?"+h.key) }
 
@@ -115,6 +122,10 @@ type lcSession struct {
 	flv    *httpflv.SubSession
 	psPort int
 	done   chan struct{}
+	push   *rtmp.PushSession   // wire publisher: the client end
+	wsess  *rtmp.ServerSession // wire publisher: the session the server's routine created
+	sent   uint64              // wire publisher: bytes written by the client after the publish
+	wbase  uint64              // wire publisher: bytes the server session had read when the publish was accepted
 }
 
 type nullRtspObserver struct{}
@@ -263,7 +274,7 @@ func (o *lcOrigin) close() {
 
 func kindOf(cfg *lcCfg, x string) string {
 	for k, l := range map[string][]string{"rtmpPub": cfg.RtmpPubs, "rtspPub": cfg.RtspPubs, "custPub": cfg.CustPubs,
-		"psPub": cfg.PsPubs, "rtmpSub": cfg.RtmpSubs, "flvSub": cfg.FlvSubs} {
+		"psPub": cfg.PsPubs, "rtmpSub": cfg.RtmpSubs, "flvSub": cfg.FlvSubs, "wirePub": cfg.WirePubs} {
 		for _, y := range l {
 			if y == x {
 				return k
@@ -358,6 +369,16 @@ func runLifecycleScenario(sc *lcScenario, emitEv func(M)) {
 		})
 	}
 	sess := map[string]*lcSession{}
+	var wire *lcWire
+	if len(sc.Cfg.WirePubs) > 0 {
+		wire = newLcWire(sm)
+		if wire == nil {
+			emitEv(M{"ev": "reset", "sc": sc.Sc, "cfgId": sc.CfgId})
+			emitEv(M{"ev": "inconclusive", "sc": sc.Sc, "why": "no wire server (built without verif_wire)"})
+			return
+		}
+		defer wire.close()
+	}
 	emitEv(M{"ev": "reset", "sc": sc.Sc, "cfgId": sc.CfgId})
 	origin := newLcOrigin()
 	defer origin.close()
@@ -410,6 +431,7 @@ func runLifecycleScenario(sc *lcScenario, emitEv func(M)) {
 	}
 
 	tick := uint32(0)
+	sweeps := uint32(0)
 	emit := func(name, x, ret string) {
 		n, h := drain()
 		ev := M{"ev": name, "obs": M{"ret": ret, "notif": n, "hook": h, "attempts": origin.count()}}
@@ -487,6 +509,8 @@ func runLifecycleScenario(sc *lcScenario, emitEv func(M)) {
 				s.key = s.rtmp.UniqueKey()
 				register(x, s)
 				err = sm.OnNewRtmpPubSession(s.rtmp)
+			} else if kind == "wirePub" {
+				err = wire.publish(x, s, stream, register)
 			} else {
 				// an RTSP publisher goes through the real per-connection routine of rtsp.Server (command
 				// loop, ANNOUNCE handling, report of the departing session): the ServerManager is its observer
@@ -530,8 +554,18 @@ func runLifecycleScenario(sc *lcScenario, emitEv func(M)) {
 			emit("NewPub", x, ret)
 		case "DelPub":
 			s := sess[x]
+			if s == nil {
+				emit("DelPub", x, "nosession") // (the session never came into being: an observation no behaviour contains)
+				continue
+			}
 			if s.kind == "rtmpPub" {
 				sm.OnDelRtmpPubSession(s.rtmp)
+			} else if s.kind == "wirePub" {
+				s.push.Dispose() // the peer hangs up: the server's routine reports the departure
+				select {
+				case <-s.done:
+				case <-time.After(3 * time.Second):
+				}
 			} else {
 				s.conn.Close() // the peer hangs up: the server's routine reports the departure
 				select {
@@ -601,7 +635,7 @@ func runLifecycleScenario(sc *lcScenario, emitEv func(M)) {
 			} else {
 				// a session that never came into being still has a well-formed id of its kind
 				key = map[string]string{"rtmpPub": base.UkPreRtmpServerSession, "rtmpSub": base.UkPreRtmpServerSession,
-					"rtspPub": base.UkPreRtspPubSession, "custPub": base.UkPreCustomizePubSessionContext,
+					"wirePub": base.UkPreRtmpServerSession, "rtspPub": base.UkPreRtspPubSession, "custPub": base.UkPreCustomizePubSessionContext,
 					"psPub": base.UkPrePsPubSession, "flvSub": base.UkPreFlvSubSession}[kind] + "999999"
 			}
 			resp := sm.CtrlKickSession(base.ApiCtrlKickSessionReq{StreamName: stream, SessionId: key})
@@ -612,7 +646,7 @@ func runLifecycleScenario(sc *lcScenario, emitEv func(M)) {
 			case base.ErrorCodeSessionNotFound:
 				ret = "nosession"
 			}
-			if ret == "ok" && kind == "rtspPub" {
+			if ret == "ok" && (kind == "rtspPub" || kind == "wirePub") {
 				if s := sess[x]; s != nil && s.done != nil {
 					select {
 					case <-s.done:
@@ -643,6 +677,19 @@ func runLifecycleScenario(sc *lcScenario, emitEv func(M)) {
 			}
 			for _, msg := range msgs {
 				switch skind {
+				case "wirePub":
+					// through the real connection: the server session reads the chunks and hands the message on
+					ch := rtmp.Message2Chunks(msg.Payload, &msg.Header)
+					// followed by an Acknowledgement: once the read loop has consumed it, the media
+					// message before it has been handed on (one goroutine reads and dispatches)
+					ack := base.RtmpHeader{Csid: 2, MsgLen: 4, MsgTypeId: base.RtmpTypeIdAck}
+					ch = append(ch, rtmp.Message2Chunks([]byte{0, 0, 0, 1}, &ack)...)
+					if err := s.push.Write(ch); err == nil {
+						_ = s.push.Flush()
+						s.sent += uint64(len(ch))
+						base0 := s.sent
+						waitFor(2*time.Second, func() bool { return s.wsess.GetStat().ReadBytesSum >= s.wbase+base0 })
+					}
 				case "custPub":
 					if err := s.cust.FeedRtmpMsg(msg); err != nil {
 						ret = "rejected"
@@ -671,8 +718,22 @@ func runLifecycleScenario(sc *lcScenario, emitEv func(M)) {
 			ev := M{"ev": "Probe", "x": x, "obs": M{"ret": ret, "notif": n, "hook": h, "attempts": origin.count(), "fwd": fwd}}
 			emitEv(ev)
 			continue
+		case "Sweep":
+			// a tick whose count is a multiple of base.LogicCheckSessionAliveIntervalSec (120): the idle check runs
+			sweeps++
+			sm.VerifTick(base.LogicCheckSessionAliveIntervalSec * sweeps)
+			if st.ExpNotif > 0 {
+				waitFor(3*time.Second, func() bool { return countNotif("pub_stop") > 0 })
+			}
+			if st.ExpHook > 0 {
+				waitFor(3*time.Second, func() bool { return hookRec.count() >= st.ExpHook })
+			}
+			emit("Sweep", "", "ok")
 		case "Tick":
 			tick++
+			if tick%base.LogicCheckSessionAliveIntervalSec == 0 {
+				tick++
+			}
 			sm.VerifTick(tick)
 			waitAttempts(&st)
 			if st.ExpNotif > 0 {
@@ -1033,4 +1094,105 @@ func lcRunInChild(sc *lcScenario, seed int64) []M {
 		evs = append(evs, M{"ev": "Died", "x": "", "kind": kind, "frame": frame})
 	}
 	return evs
+}
+
+// ---- wire publishers: lal's own RTMP client (rtmp.PushSession) on a loopback connection that is
+// served by the per-connection routine of rtmp.Server (session, read loop, report of the departure)
+
+// lcWireServe runs rtmp.Server's per-connection routine; set by lifecycle_wire.go (build tag verif_wire).
+var lcWireServe func(srv *rtmp.Server, conn net.Conn)
+
+type lcWireAccepted struct {
+	sess *rtmp.ServerSession
+	err  error
+}
+
+type lcWire struct {
+	ln       net.Listener
+	sm       *logic.ServerManager
+	srv      *rtmp.Server
+	dones    chan chan struct{}
+	accepted chan lcWireAccepted
+	onPub    func(session *rtmp.ServerSession) // called before the ServerManager sees the publish
+}
+
+func newLcWire(sm *logic.ServerManager) *lcWire {
+	if lcWireServe == nil {
+		return nil
+	}
+	ln, err := net.Listen("tcp", "127.0.0.1:0")
+	if err != nil {
+		return nil
+	}
+	w := &lcWire{ln: ln, sm: sm, dones: make(chan chan struct{}, 16), accepted: make(chan lcWireAccepted, 16)}
+	w.srv = rtmp.NewServer(ln.Addr().String(), w)
+	go func() {
+		for {
+			c, err := ln.Accept()
+			if err != nil {
+				return
+			}
+			d := make(chan struct{})
+			w.dones <- d
+			go func() { lcWireServe(w.srv, c); close(d) }()
+		}
+	}()
+	return w
+}
+
+func (w *lcWire) close() { w.ln.Close() }
+
+// the ServerManager is the observer, as in lal; the adapter only notes which session the routine created
+func (w *lcWire) OnRtmpConnect(session *rtmp.ServerSession, opa rtmp.ObjectPairArray) {
+	w.sm.OnRtmpConnect(session, opa)
+}
+func (w *lcWire) OnNewRtmpPubSession(session *rtmp.ServerSession) error {
+	if w.onPub != nil {
+		w.onPub(session)
+	}
+	err := w.sm.OnNewRtmpPubSession(session)
+	w.accepted <- lcWireAccepted{sess: session, err: err}
+	return err
+}
+func (w *lcWire) OnDelRtmpPubSession(session *rtmp.ServerSession) { w.sm.OnDelRtmpPubSession(session) }
+func (w *lcWire) OnNewRtmpSubSession(session *rtmp.ServerSession) error {
+	return w.sm.OnNewRtmpSubSession(session)
+}
+func (w *lcWire) OnDelRtmpSubSession(session *rtmp.ServerSession) { w.sm.OnDelRtmpSubSession(session) }
+
+// publish connects a wire publisher and returns what the ServerManager answered to its publish.
+func (w *lcWire) publish(x string, s *lcSession, stream string, register func(string, *lcSession)) error {
+	s.push = rtmp.NewPushSession(func(o *rtmp.PushSessionOption) { o.PushTimeoutMs = 3000 })
+	w.onPub = func(session *rtmp.ServerSession) {
+		s.wsess = session
+		s.key = session.UniqueKey()
+		register(x, s)
+	}
+	startErr := s.push.Start("rtmp://" + w.ln.Addr().String() + "/live/" + stream)
+	select {
+	case s.done = <-w.dones:
+	case <-time.After(3 * time.Second):
+	}
+	var acc lcWireAccepted
+	select {
+	case acc = <-w.accepted:
+	case <-time.After(3 * time.Second):
+		if startErr != nil {
+			return startErr
+		}
+		return fmt.Errorf("wire publish: no publish callback")
+	}
+	if acc.err != nil {
+		// refused: the server's routine closes the connection and ends without reporting a departure
+		if s.done != nil {
+			select {
+			case <-s.done:
+			case <-time.After(3 * time.Second):
+			}
+		}
+		s.push.Dispose()
+		return acc.err
+	}
+	s.wbase = acc.sess.GetStat().ReadBytesSum
+	return nil
 }
